@@ -261,6 +261,14 @@ func canon(b *strings.Builder, v any, depth int) {
 
 // CanonStore renders a state/global store canonically (sorted keys).
 func CanonStore(m map[string]any) string {
+	if len(m) == 0 {
+		return "{}"
+	}
+	if len(m) == 1 {
+		if _, ok := m["__v"]; ok {
+			return "{}"
+		}
+	}
 	keys := make([]string, 0, len(m))
 	for k := range m {
 		if k == "__v" {
